@@ -36,7 +36,8 @@ K = {
     "user": {"none": [""], "user": ["user@", "a.b@"], "userpw": ["user:pw@", "u:@"], "pwonly": [":pw@", ":s3cret@"], "empty": ["@"], "colononly": [":@"]},
     "host": {"reg": ["example.org", "sub.example-1.org", "localhost", "xn--bcher-kva.example"], "REG": ["EXAMPLE.org", "ExAmPlE.ORG"],
              "ipv4": ["192.0.2.1", "10.0.0.255"], "v6": ["[::1]", "[2001:db8::7]", "[2001:DB8::A]"], "v6zone": ["[fe80::1%25eth0]"],
-             "missing": [""], "v6bare": ["::1", "2001:db8::7"], "v6junk": ["junk[::1]junk", "trusted.example[::1]", "[::1]x", "x[2001:db8::7]"]},
+             "missing": [""], "v6bare": ["::1", "2001:db8::7"], "v6junk": ["junk[::1]junk", "trusted.example[::1]", "[::1]x", "x[2001:db8::7]"],
+             "vfuture": ["[v1.ab]", "[v1.[]", "[vF.example.org]", "[v1.a-b_c~d]"]},
     "port": {"absent": [""], "emptycolon": [":"], "1965": [":1965"], "0": [":0"], "65535": [":65535"], "65536": [":65536", ":99999"],
              "abc": [":abc", ":-1", ":19 65"], "7070": [":7070", ":07070"]},
     "path": {"empty": [""], "root": ["/"], "plain": ["/a/b.gmi", "/docs/index", "/~user/file.txt", "/caf\u00e9/\u65e5\u672c.gmi", "/notes/draft\u00a0", "/em\u2003"], "pct": ["/a%20b/%C3%A9", "/%41%2F%3f"],
